@@ -151,8 +151,37 @@ static int fill_subset(BUFR_Dataset *dts, int pos, char **toks, int ntok){
 
 static char msgbuf[1<<22];
 
+/* parse "<ed> <n> <desc>.. <nsub> {tok.. |}.." and build the dataset through the public API; *rc as documented for E */
+static BUFR_Dataset* build_dataset(char **save, int *rcp){
+  int ed = atoi(strtok_r(NULL," ",save)), n = atoi(strtok_r(NULL," ",save)), i;
+  int *descs = (int*)calloc(n>0?n:1, sizeof(int));
+  for(i=0;i<n;i++) descs[i] = atoi(strtok_r(NULL," ",save));
+  int nsub = atoi(strtok_r(NULL," ",save));
+  BUFR_Template *t = mk_template(ed,n,descs);
+  free(descs);
+  if(!t){ *rcp = -1; return NULL; }
+  BUFR_Dataset *dts = bufr_create_dataset(t);
+  bufr_free_template(t);
+  dts->s1.year=2020; dts->s1.month=1; dts->s1.day=2; dts->s1.hour=3; dts->s1.minute=4; dts->s1.second=5;
+  int rc = 0, s;
+  for(s=0;s<nsub && rc==0;s++){
+    static char *toks[200000]; int nt=0; char *tk;
+    while((tk=strtok_r(NULL," ",save)) && strcmp(tk,"|")) { if(nt<200000) toks[nt++]=tk; }
+    h_aborted=0; h_abort_armed=1; exit_called=0; exit_armed=1;
+    if(setjmp(h_abort_jmp)==0 && setjmp(exit_jmp)==0){
+      int pos = bufr_create_datasubset(dts);
+      rc = fill_subset(dts,pos,toks,nt);
+    } else rc = exit_called ? -3 : -4;
+    h_abort_armed=0; exit_armed=0;
+  }
+  *rcp = rc;
+  if(rc){ bufr_free_dataset(dts); return NULL; }
+  return dts;
+}
+
 static void do_E(char **save){
-  int ed = atoi(strtok_r(NULL," ",save)), comp = atoi(strtok_r(NULL," ",save)), n = atoi(strtok_r(NULL," ",save)), i;
+  char *eds = strtok_r(NULL," ",save); int comp = atoi(strtok_r(NULL," ",save)); int rc = 0;
+  int ed = atoi(eds), n = atoi(strtok_r(NULL," ",save)), i;
   int *descs = (int*)calloc(n>0?n:1, sizeof(int));
   for(i=0;i<n;i++) descs[i] = atoi(strtok_r(NULL," ",save));
   int nsub = atoi(strtok_r(NULL," ",save));
@@ -162,7 +191,7 @@ static void do_E(char **save){
   BUFR_Dataset *dts = bufr_create_dataset(t);
   bufr_free_template(t);
   dts->s1.year=2020; dts->s1.month=1; dts->s1.day=2; dts->s1.hour=3; dts->s1.minute=4; dts->s1.second=5;
-  int rc = 0, s;
+  int s;
   for(s=0;s<nsub && rc==0;s++){
     static char *toks[200000]; int nt=0; char *tk;
     while((tk=strtok_r(NULL," ",save)) && strcmp(tk,"|")) { if(nt<200000) toks[nt++]=tk; }
@@ -187,6 +216,28 @@ static void do_E(char **save){
   printf("\n");
   bufr_free_message(m);
   bufr_free_dataset(dts);
+}
+
+/* M <dest_pos> <src_pos> <nb> <dataset spec of dest> @@ <dataset spec of src>    spec = <ed> <n> <desc>.. <nsub> {tok.. |}..
+   -> "M rc=<return of bufr_merge_dataset or build error> ; S0 .. ; S1 .." (the destination after merging) */
+static void do_M(char **save){
+  int dpos = atoi(strtok_r(NULL," ",save)), spos = atoi(strtok_r(NULL," ",save)), nb = atoi(strtok_r(NULL," ",save));
+  int rc1=0, rc2=0;
+  BUFR_Dataset *dest = build_dataset(save,&rc1);
+  char *sep = strtok_r(NULL," ",save);
+  if(!sep || strcmp(sep,"@@")){ printf("M rc=-90\n"); if(dest) bufr_free_dataset(dest); return; }
+  BUFR_Dataset *src = build_dataset(save,&rc2);
+  if(!dest || !src){ printf("M rc=-91 build=%d,%d\n", rc1, rc2); if(dest) bufr_free_dataset(dest); if(src) bufr_free_dataset(src); return; }
+  int r = -99;
+  h_aborted=0; h_abort_armed=1; exit_called=0; exit_armed=1;
+  if(setjmp(h_abort_jmp)==0 && setjmp(exit_jmp)==0) r = bufr_merge_dataset(dest, dpos, src, spos, nb);
+  else r = exit_called ? -93 : -94;
+  h_abort_armed=0; exit_armed=0;
+  printf("M rc=%d nsub=%d", r, bufr_count_datasubset(dest));
+  list_dataset(dest);
+  printf("\n");
+  bufr_free_dataset(src);
+  bufr_free_dataset(dest);
 }
 
 static void do_T(char **save){
@@ -271,6 +322,7 @@ int main(void){
     else if(!strcmp(tok,"T")) do_T(&save);
     else if(!strcmp(tok,"D")) do_D(&save);
     else if(!strcmp(tok,"R")) do_R(&save);
+    else if(!strcmp(tok,"M")) do_M(&save);
     else printf("?\n");
     fflush(stdout);
   }
